@@ -233,3 +233,18 @@ uint64_t hash_LU(const slu_vt *vt, SuperMatrix *L, SuperMatrix *U)
     h = fnv1a(Ls->col_to_sup, sizeof(int_t) * n, h);
     return h;
 }
+
+/* ------------------------------------------------------------------ structural rank (augmenting paths) */
+static int sr_aug(int j, const int_t *ptr, const int_t *ind, int *rowmatch, int *seen, int stamp)
+{
+    for (long p = ptr[j]; p < ptr[j + 1]; ++p) { int r = ind[p]; if (seen[r] == stamp) continue; seen[r] = stamp;
+        if (rowmatch[r] < 0 || sr_aug(rowmatch[r], ptr, ind, rowmatch, seen, stamp)) { rowmatch[r] = j; return 1; } }
+    return 0;
+}
+int structural_rank(int n, const int_t *ptr, const int_t *ind)
+{
+    int *rowmatch = hx_malloc(sizeof(int) * (n + 1)), *seen = hx_calloc(n + 1, sizeof(int)); int rank = 0;
+    for (int i = 0; i < n; ++i) rowmatch[i] = -1;
+    for (int j = 0; j < n; ++j) if (sr_aug(j, ptr, ind, rowmatch, seen, j + 1)) rank++;
+    hx_free(rowmatch); hx_free(seen); return rank;
+}
